@@ -119,6 +119,9 @@ def reset_initial_conditions(
     InitCond.ccx_early_sen = 0
     InitCond.cc_prev = 0
     InitCond.protected_seed = 0
+    # the canopy starts from the crop's initial cover again (as in the first
+    # season), not from what the previous season left
+    InitCond.cc0_adj = crop.CC0
     InitCond.sumET0EarlySen = 0
     InitCond.HIfinal = crop.HI0
     InitCond.DryYield = 0
